@@ -3,7 +3,8 @@ CHECK = {
                suite("trees", "c13", 200, 2000, stdin=True, args=["-suite", "trees"], timeout={"quick": 600, "thorough": 2400})],
     "gen": [{"pkg": "extract_c13", "out": "lean/ClusterVerif/Gen/C13.lean"}],
     "lean_sources": ["ClusterVerif/Model/Pin.lean", "ClusterVerif/Gen/C13.lean", "ClusterVerif/Model/C13.lean",
-                     "ClusterVerif/Spec/C13.lean", "ClusterVerif/Lemmas/C13.lean", "ClusterVerif/Lemmas/C13Log.lean", "ClusterVerif/Lemmas/C13Deliv.lean"],
+                     "ClusterVerif/Spec/C13.lean", "ClusterVerif/Lemmas/C13.lean", "ClusterVerif/Lemmas/C13Log.lean", "ClusterVerif/Lemmas/C13Deliv.lean",
+                     "ClusterVerif/Model/C13Import.lean", "ClusterVerif/Lemmas/C13Import.lean"],
     "rule": "stream: synthetic raw-block streams (1-6 runs of equal-sized blocks, repeats, early/foreign roots; 5983..11969 four-byte blocks in the "
             "thorough tier) into single.New / sharding.New with shard limits at, one under and one over sums of block runs, 1-4 scripted allocations "
             "over 5 destinations, BlockPut faults (IPFS / RPC error, from the j-th put of a destination), BlockAllocate and Pin failures; "
